@@ -5,25 +5,20 @@ import MirVerif.Lemmas.PPMacroFuel
 # Property C09 — c2mir's preprocessor expands macros and evaluates `#if` as C11 requires
 
 ## `#if` evaluation
-Full statement (C11 6.10.1p4):
+Full statement (C11 6.10.1p4), theorem `eval_meets_c11`:
 
-    `eval_meets_c11 : ∀ e, c11Eval e ≠ .undef → c2mEval e = c11Eval e`
+    `∀ e, LitsOk e → c11Eval e ≠ .undef → c2mEval e = c11Eval e`
 
-where `c2mEval = c2mEvalG appliedFixes` is the literal model of `eval`/`eval_binop_operands`
-(`c2mir.c:3436-3577`) of the checked tree.  It is FALSE for the tree as it stands
-(`appliedFixes = noFixes`): six operator/constant classes get the wrong signedness, see the
-counter-examples `eval_wrong_*` below (each is replayed on the real `c2m` and on `gcc` by
-`checks/c09.py`, known findings `C09:if-*`).  What is proved:
+where `c2mEval = c2mEvalG appliedFixes` (`appliedFixes = allFixes`) is the literal model of
+`eval`/`eval_binop_operands`/`eval_expr` of the checked tree and `LitsOk e` says that every integer
+constant of `e` has a C11 type (6.4.4p2 constraint; a program violating it has no meaning).  The
+result covers the value, its type and the division-by-zero diagnostic.  The correspondence of the
+model with the real evaluator is tested on every generated expression by `checks/c09.py`.
 
-* `eval_meets_c11_partial` — for EVERY repair set `fx` and every expression satisfying the explicit
-  side condition `Clean fx e` (no occurrence of an operator class that `fx` leaves unrepaired, every
-  constant has a C11 type) the code model computes the C11 result (value, type, or the division-by-
-  zero diagnostic) wherever C11 defines one;
-* `eval_fixed_meets_c11` — with all candidate repairs `fixes/C09-if-*.patch` the side condition
-  reduces to "every constant has a C11 type": this is the full statement for the repaired code;
-* `eval_meets_c11_of_repaired` — the full statement for the checked tree, conditional on the single
-  definition `appliedFixes` having been switched to `allFixes` (vacuous today: `appliedFixes` is
-  `noFixes`).
+The evaluator before /repo deaac458 is kept as the explicitly named old variant `c2mEvalOld`
+(`c2mEvalG noFixes`): it got the signedness of six operator/constant classes wrong
+(`eval_old_wrong_*`), and `eval_meets_c11_partial` gives, for every partial repair set, the side
+condition under which that variant is still right.
 
 ## macro replacement
 The expander `expandList` is the executable C11 specification (not a model of c2mir's push-back
@@ -32,8 +27,7 @@ it is total (the definition is accepted by well-founded recursion on
 `(enabledCount defs dis, 2·|ts| + pending)` using `enabledCount_lt`, `collectArgs_len`);
 painted tokens are never replaced (`painted_never_expanded`); a macro name met while the macro is
 being replaced is painted (`disabled_name_painted`); arguments: `arg_preexpanded_once`;
-the code's `stringify`/`destringify` pair: `stringify_roundtrip_partial` / `_fixed` (full statement false,
-see below).
+the code's `stringify`/`destringify` pair: `stringify_roundtrip` (full statement).
 -/
 namespace MirVerif.PP
 
@@ -44,24 +38,10 @@ theorem eval_meets_c11_partial (fx : Fixes) (e : Expr)
     (hclean : Clean fx e = true) (hdef : c11Eval e ≠ .undef) : c2mEvalG fx e = c11Eval e :=
   eval_partial fx e hclean hdef
 
-/-- the statement for the model of the checked tree -/
-theorem eval_meets_c11_applied (e : Expr)
-    (hclean : Clean appliedFixes e = true) (hdef : c11Eval e ≠ .undef) : c2mEval e = c11Eval e :=
-  eval_partial appliedFixes e hclean hdef
-
-/-- FULL statement for the code with all candidate repairs applied -/
-theorem eval_fixed_meets_c11 (e : Expr) (hl : LitsOk e = true) (hdef : c11Eval e ≠ .undef) :
-    c2mEvalG allFixes e = c11Eval e :=
+/-- **FULL statement for the checked tree** -/
+theorem eval_meets_c11 (e : Expr) (hl : LitsOk e = true) (hdef : c11Eval e ≠ .undef) :
+    c2mEval e = c11Eval e :=
   eval_partial allFixes e (clean_allFixes e hl) hdef
-
-/-- FULL statement for the checked tree once `appliedFixes` is switched to `allFixes` -/
-theorem eval_meets_c11_of_repaired (h : appliedFixes = allFixes) (e : Expr) (hl : LitsOk e = true)
-    (hdef : c11Eval e ≠ .undef) : c2mEval e = c11Eval e := by
-  unfold c2mEval; rw [h]; exact eval_fixed_meets_c11 e hl hdef
-
--- today `appliedFixes` is `noFixes`, so the hypothesis of `eval_meets_c11_of_repaired` is false and the
--- theorem is vacuous; after the repairs are committed set `appliedFixes := allFixes` in Model/PPExpr.lean
--- (the correspondence check tells which value matches the real evaluator) and `h` becomes `rfl`.
 
 /-- type soundness of the C11 evaluator: the flag of a computed value is the static type -/
 theorem c11Eval_type_sound (e : Expr) (v : Val) (h : c11Eval e = .val v) : v.uns = isUns e :=
@@ -85,33 +65,34 @@ def wLit : Expr :=
 /-- `L'\xffffffff' < 0` -/
 def wWchar : Expr := .bin .lt (.lit (.chr .wide 0xffffffff)) (iLit 0)
 
-theorem eval_wrong_not : c11Eval wNot = .val ⟨false, 1#64⟩ ∧ c2mEvalG noFixes wNot = .val ⟨true, 0#64⟩ := by decide
-theorem eval_wrong_compare : c11Eval wCmp = .val ⟨false, 1#64⟩ ∧ c2mEvalG noFixes wCmp = .val ⟨true, 0#64⟩ := by decide
-theorem eval_wrong_shift : c11Eval wShift = .val ⟨false, 1#64⟩ ∧ c2mEvalG noFixes wShift = .val ⟨true, 0#64⟩ := by decide
-theorem eval_wrong_cond : c11Eval wCond = .val ⟨false, 0#64⟩ ∧ c2mEvalG noFixes wCond = .val ⟨false, 1#64⟩ := by decide
-theorem eval_wrong_literal : c11Eval wLit = .val ⟨false, 1#64⟩ ∧ c2mEvalG noFixes wLit = .val ⟨true, 0#64⟩ := by decide
-theorem eval_wrong_wchar : c11Eval wWchar = .val ⟨false, 1#64⟩ ∧ c2mEvalG noFixes wWchar = .val ⟨true, 0#64⟩ := by decide
+theorem eval_old_wrong_not : c11Eval wNot = .val ⟨false, 1#64⟩ ∧ c2mEvalOld wNot = .val ⟨true, 0#64⟩ := by decide
+theorem eval_old_wrong_compare : c11Eval wCmp = .val ⟨false, 1#64⟩ ∧ c2mEvalOld wCmp = .val ⟨true, 0#64⟩ := by decide
+theorem eval_old_wrong_shift : c11Eval wShift = .val ⟨false, 1#64⟩ ∧ c2mEvalOld wShift = .val ⟨true, 0#64⟩ := by decide
+theorem eval_old_wrong_cond : c11Eval wCond = .val ⟨false, 0#64⟩ ∧ c2mEvalOld wCond = .val ⟨false, 1#64⟩ := by decide
+theorem eval_old_wrong_literal : c11Eval wLit = .val ⟨false, 1#64⟩ ∧ c2mEvalOld wLit = .val ⟨true, 0#64⟩ := by decide
+theorem eval_old_wrong_wchar : c11Eval wWchar = .val ⟨false, 1#64⟩ ∧ c2mEvalOld wWchar = .val ⟨true, 0#64⟩ := by decide
 
-/-- the full statement fails for the unrepaired code -/
-theorem eval_meets_c11_false_unrepaired :
-    ¬ ∀ e, LitsOk e = true → c11Eval e ≠ .undef → c2mEvalG noFixes e = c11Eval e := by
+/-- the full statement fails for the old variant -/
+theorem eval_meets_c11_false_old :
+    ¬ ∀ e, LitsOk e = true → c11Eval e ≠ .undef → c2mEvalOld e = c11Eval e := by
   intro h
   have := h wCond (by decide) (by decide)
   revert this
   decide
 
-/-- each single repair removes its class: the witnesses evaluate correctly -/
+/-- the old witnesses evaluate correctly in the checked tree -/
 theorem eval_witnesses_repaired :
-    c2mEvalG allFixes wNot = c11Eval wNot ∧ c2mEvalG allFixes wCmp = c11Eval wCmp ∧
-    c2mEvalG allFixes wShift = c11Eval wShift ∧ c2mEvalG allFixes wCond = c11Eval wCond ∧
-    c2mEvalG allFixes wLit = c11Eval wLit ∧ c2mEvalG allFixes wWchar = c11Eval wWchar := by decide
+    c2mEval wNot = c11Eval wNot ∧ c2mEval wCmp = c11Eval wCmp ∧
+    c2mEval wShift = c11Eval wShift ∧ c2mEval wCond = c11Eval wCond ∧
+    c2mEval wLit = c11Eval wLit ∧ c2mEval wWchar = c11Eval wWchar := by decide
 
--- non-vacuity: an expression with every operator class that satisfies the hypotheses of
--- `eval_meets_c11_applied` for the unrepaired code and has a non-trivial value
+-- non-vacuity: expressions with every operator class that satisfy the hypotheses of `eval_meets_c11`
+-- and have a non-trivial value
 example :
     let e : Expr := .cond (.bin .land (.un .lnot (iLit 0)) (.bin .le (iLit 3) (.bin .shl (iLit 1) (iLit 4))))
                       (.bin .add (uLit 7) (.bin .mul neg1 (iLit 2))) (uLit 9)
-    Clean appliedFixes e = true ∧ c11Eval e = .val ⟨true, 5#64⟩ ∧ c2mEval e = c11Eval e := by decide
+    LitsOk e = true ∧ c11Eval e = .val ⟨true, 5#64⟩ ∧ c2mEval e = c11Eval e := by decide
+example : LitsOk wCond = true ∧ LitsOk wLit = true ∧ LitsOk wWchar = true ∧ c11Eval wCond ≠ .undef := by decide
 -- non-vacuity of the diagnostic case: division by zero is reported by both, not in a skipped operand
 example : c11Eval (.bin .div (iLit 1) (iLit 0)) = .divZero ∧ c2mEval (.bin .div (iLit 1) (iLit 0)) = .divZero ∧
     c11Eval (.bin .land (iLit 0) (.bin .div (iLit 1) (iLit 0))) = .val ⟨false, 0#64⟩ := by decide
@@ -155,28 +136,23 @@ theorem arg_preexpanded_once (raw exp : List (List Tok)) (i : Nat) (w : Ws) :
         [.pasteOp, .tok ⟨"x", .none, false⟩] :=
   subst_param_cases raw exp i w
 
-/-! `stringify` (`c2mir.c:1778`) / `destringify` (`c2mir.c:1789`).  Full statement
+/-! `stringify` (`c2mir.c:1782`) / `destringify` (`c2mir.c:1793`; used for the operand of `_Pragma`). -/
 
-    `stringify_roundtrip : ∀ s, destringifyC (stringify s) = s`
+/-- **FULL statement**: `destringify` inverts `stringify` on every string -/
+theorem stringify_roundtrip (s : List Char) : destringifyC (stringify s) = s := by
+  unfold destringifyC; rw [stripQuotes_stringify, destrLoop_escape]
 
-is FALSE for the code as it stands (`stringify_roundtrip_false_unrepaired`): after dropping an
-escaping backslash the loop re-examines the escaped character, so `\\\\` (two escaped backslashes)
-collapses to one.  The defect is latent (the only caller of `destringify` is `_Pragma`, whose
-accepted operands contain no backslash); known finding `C09:destringify-escape-pairs`, the
-correspondence check calls the two static functions on generated strings. -/
+/-- old variant (before /repo f779af05): only for strings in which no backslash is directly followed
+by `\` or `"` -/
+theorem stringify_roundtrip_old_partial (s : List Char) (h : noEscPair s = true) :
+    destringifyOld (stringify s) = s := by
+  unfold destringifyOld; rw [stripQuotes_stringify, destrLoopOld_escape s h]
 
-/-- for strings in which no backslash is directly followed by `\` or `"` -/
-theorem stringify_roundtrip_partial (s : List Char) (h : noEscPair s = true) :
-    destringifyC (stringify s) = s := by
-  unfold destringifyC; rw [stripQuotes_stringify, destrLoop_escape s h]
-
-/-- FULL statement for `destringify` with `fixes/C09-destringify-escape-pairs.patch` -/
-theorem stringify_roundtrip_fixed (s : List Char) : destringifyFixed (stringify s) = s := by
-  unfold destringifyFixed; rw [stripQuotes_stringify, destrLoopFixed_escape]
-
-theorem stringify_roundtrip_false_unrepaired :
-    destringifyC (stringify ['a', '\\', '\\', 'b']) = ['a', '\\', 'b'] ∧
-    destringifyC (stringify ['\\', '"']) = ['"'] := by decide
+/-- old variant: after dropping an escaping backslash the loop re-examined the escaped character, so
+`\\\\` (two escaped backslashes) collapsed to one -/
+theorem stringify_roundtrip_false_old :
+    destringifyOld (stringify ['a', '\\', '\\', 'b']) = ['a', '\\', 'b'] ∧
+    destringifyOld (stringify ['\\', '"']) = ['"'] := by decide
 
 example : stringify "a\"b\\c".toList = "\"a\\\"b\\\\c\"".toList := by decide
 example : noEscPair "C:\\dir \"x\" \\n".toList = true := by decide
